@@ -61,7 +61,7 @@ class BuildError(Exception):
     pass
 
 
-def run_dump(jobs, only=None):
+def run_dump(jobs, only=None, procs=None):
     """compile the jobs with the dumper built against the current /repo; returns {id: path of dump json}"""
     exe = os.path.join(scratch(), 'r2sdump')
     if not os.path.exists(exe):
@@ -70,7 +70,8 @@ def run_dump(jobs, only=None):
     jf = os.path.join(d, 'jobs.json')
     json.dump(jobs, open(jf, 'w'))
     # one dumper process per job chunk, in parallel
-    chunks = [jobs[i::NCPU] for i in range(min(NCPU, len(jobs)))]
+    np_ = min(procs or NCPU, NCPU, len(jobs))
+    chunks = [jobs[i::np_] for i in range(np_)]
     procs = []
     for i, ch in enumerate(chunks):
         cf = os.path.join(d, 'jobs%d.json' % i)
@@ -79,7 +80,8 @@ def run_dump(jobs, only=None):
     for p in procs:
         _, err = p.communicate(timeout=3000)
         if p.returncode != 0:
-            raise BuildError('r2sdump failed: ' + err[-3000:])
+            lines = [l for l in err.splitlines() if not l.startswith('r2sdump ') and not l.startswith('{')]
+            raise BuildError('r2sdump exited %d: %s' % (p.returncode, '\n'.join(lines[-40:])[-3000:]))
     return {j['id']: os.path.join(d, j['id'] + '.json') for j in jobs}
 
 
